@@ -38,8 +38,8 @@ plan("C02", "exploration",
      {"fsm-apply": 20}, "at least 20 entries handed to FSMs",
      {"quick": {"fsm-restore": 20, "fsm-apply": 5000}, "thorough": {"fsm-restore": 125}})
 plan("C03", "exploration",
-     [sim("fig8", 16), sim("fig8x", 12), sim("storefail", 10), sim("random", 8), sim("elections", 6), sim("cfgquorum", 8)],
-     [sim("fig8", 270), sim("fig8x", 100), sim("storefail", 100), sim("random", 130), sim("elections", 100), sim("crashpoints", 70), sim("cfgquorum", 60), sim("cfggate", 40)],
+     [sim("fig8", 14), sim("fig8x", 10), sim("storefail", 10), sim("random", 8), sim("elections", 6), sim("cfgquorum", 6), sim("dupae", 8)],
+     [sim("fig8", 270), sim("fig8x", 100), sim("storefail", 100), sim("random", 130), sim("elections", 100), sim("crashpoints", 70), sim("cfgquorum", 60), sim("cfggate", 40), sim("dupae", 60)],
      {"leader-completeness-checked": 1}, "a leader was elected after entries were known to be committed",
      {"quick": {"leader-completeness-checked": 100}, "thorough": {"leader-completeness-checked": 750}})
 plan("C08", "exploration",
@@ -58,8 +58,8 @@ plan("C10", "fault_enumeration",
      {"restart-checked": 4}, "at least one restart from a crash image was compared with what the new incarnation reports",
      {"quick": {"restart-checked": 300, "restart-with-snapshot": 30}, "thorough": {"restart-checked": 2000}})
 plan("C12", "exploration",
-     [sim("lagging", 22), sim("random", 16), sim("churn", 12), sim("longstale", 6), sim("storefail", 6)],
-     [sim("lagging", 170), sim("random", 170), sim("churn", 130), sim("crashpoints", 70), sim("longstale", 60), sim("storefail", 80), sim("restore", 60), sim("random", 60, race=True)],
+     [sim("lagging", 20), sim("random", 14), sim("churn", 12), sim("longstale", 6), sim("storefail", 6), sim("monofail", 6)],
+     [sim("lagging", 170), sim("random", 170), sim("churn", 130), sim("crashpoints", 70), sim("longstale", 60), sim("storefail", 80), sim("restore", 60), sim("monofail", 40), sim("snaptrunc", 30), sim("random", 60, race=True)],
      {"tail-one-leader": 1}, "the quiet tail ended with the bounded-progress readings taken",
      {"quick": {"tail-member-checked": 60}, "thorough": {"tail-member-checked": 500}})
 plan("C13", "exploration",
@@ -78,8 +78,8 @@ plan("C17", "exploration",
      {"call:apply": 10}, "client futures were observed (and, for the shutdown family, calls raced with and followed Shutdown)",
      {"quick": {"after-shutdown-call": 100}, "thorough": {"after-shutdown-call": 500}})
 plan("C18", "exploration",
-     [sim("notify", 30), sim("random", 8), sim("elections", 8), sim("notifyblock", 8), sim("staletn", 8)],
-     [sim("notify", 330), sim("random", 100), sim("elections", 130), sim("storefail", 50), sim("notifyblock", 80), sim("staletn", 80)],
+     [sim("notify", 28), sim("random", 8), sim("elections", 8), sim("notifyblock", 8), sim("staletn", 8), sim("snapleader", 8)],
+     [sim("notify", 330), sim("random", 100), sim("elections", 130), sim("storefail", 50), sim("notifyblock", 80), sim("staletn", 80), sim("snapleader", 60)],
      {"notify": 2}, "leadership notifications were delivered",
      {"quick": {"notify": 150, "leader-sample-checked": 100}, "thorough": {"notify": 1000}})
 plan("C20", "exploration",
@@ -90,8 +90,8 @@ plan("C20", "exploration",
 
 # ---- mixed engines ----
 plan("C04", "exploration",
-     [tbl("handler", "TestC04", 8, "HANDLER"), sim("fig8", 18), sim("random", 10), sim("storefail", 8), sim("snapterm", 8)],
-     [tbl("handler", "TestC04", 16, "HANDLER", wall=3000), sim("fig8", 170), sim("random", 170), sim("elections", 70), sim("storefail", 70), sim("snapterm", 50), sim("lagging", 70)],
+     [tbl("handler", "TestC04", 8, "HANDLER"), sim("fig8", 16), sim("random", 10), sim("storefail", 8), sim("snapterm", 6), sim("monofail", 8), sim("dupae", 4)],
+     [tbl("handler", "TestC04", 16, "HANDLER", wall=3000), sim("fig8", 170), sim("random", 170), sim("elections", 70), sim("storefail", 70), sim("snapterm", 50), sim("lagging", 70), sim("monofail", 60), sim("dupae", 40)],
      None, None,
      {"quick": {"ae-success-with-entries": 1000, "truncation": 20}, "thorough": {"truncation": 250}},
      rule="HANDLER: every (follower log, snapshot boundary, current term) x (request term, previous-entry position, batch, conflict position, leader commit) within the bounds "
@@ -106,23 +106,23 @@ plan("C05", "exploration",
           "match / setConfiguration calls, plus seeded random sequences (<= 30 calls, 7 servers), each compared call by call with a brute-force reference; distinct = (initial configuration, startIndex) classes and sampled random cases. "
           "SIM: " + (SIM_RULE % "at least 5 leader commit advances were checked against the voters' reconstructed disks"))
 plan("C06", "fault_enumeration",
-     [tbl("handler", "TestC06", 8, "HANDLER"), sim("elections", 22), sim("crashpoints", 10), sim("xfervote", 6)],
-     [tbl("handler", "TestC06", 16, "HANDLER", wall=3000), sim("elections", 200), sim("crashpoints", 100), sim("random", 100), sim("xfervote", 50)],
+     [tbl("handler", "TestC06", 8, "HANDLER"), sim("elections", 20), sim("crashpoints", 10), sim("xfervote", 6), sim("dupae", 4)],
+     [tbl("handler", "TestC06", 16, "HANDLER", wall=3000), sim("elections", 200), sim("crashpoints", 100), sim("random", 100), sim("xfervote", 50), sim("dupae", 40)],
      None, None,
      {"quick": {"vote-granted": 300, "fault-before": 500, "own-candidacy-won": 100}, "thorough": {"fault-before": 10000, "own-candidacy-won": 2000}},
      rule="HANDLER: persisted state (term, vote record incl. term-without-candidate, log tail, configuration) x sequences of 2-3 RequestVote / RequestPreVote / heartbeat / TimeoutNow messages (TimeoutNow makes the server campaign itself; two fake peers hold its requests and grant them at the end, so a win after a grant to a competitor is seen) x "
           "{no fault, crash before, crash after, error} at EVERY stable-store write the sequence performs (measured by a dry run), restart and continue; quick samples base sequences, thorough 30000 of them; "
           "non-trivial = a vote was granted. SIM: " + (SIM_RULE % "votes were granted in live elections with crashes/errors armed on the vote and term writes"))
 plan("C07", "exploration",
-     [tbl("table", "TestC07", 4, "TABLE"), sim("churn", 24), sim("cfgtrunc", 10), sim("cfggate", 8), sim("cfgquorum", 4), sim("elections", 6)],
-     [tbl("table", "TestC07", 16, "TABLE"), sim("churn", 300), sim("cfgtrunc", 100), sim("cfggate", 80), sim("cfgquorum", 40), sim("elections", 100), sim("notify", 70)],
+     [tbl("table", "TestC07", 4, "TABLE"), sim("churn", 22), sim("cfgtrunc", 10), sim("cfggate", 8), sim("cfgquorum", 4), sim("elections", 6), sim("staletn", 8)],
+     [tbl("table", "TestC07", 16, "TABLE"), sim("churn", 300), sim("cfgtrunc", 100), sim("cfggate", 80), sim("cfgquorum", 40), sim("elections", 100), sim("notify", 70), sim("staletn", 60), sim("promote", 40)],
      None, None,
      {"quick": {"config-append": 40, "cfg-entry-stored": 100}, "thorough": {"config-append": 250}},
      rule="TABLE: every configuration over 3 (quick) / 4 (thorough) server ids x every command x every target (incl. a new id) x address in {own, another server's, new, empty} x prevIndex in {0, current, stale-, stale+}, "
           "compared with the stated rules; non-trivial = the voter set changed by one. SIM: " + (SIM_RULE % "a configuration entry was appended / stored"))
 plan("C11", "fault_enumeration",
-     [tbl("table", "TestC11", 1, "TABLE"), sim("lagging", 20), sim("crashpoints", 18), sim("snapcfg", 8), sim("random", 8), sim("snapterm", 6)],
-     [tbl("table", "TestC11", 1, "TABLE"), sim("lagging", 170), sim("crashpoints", 170), sim("snapcfg", 70), sim("random", 100), sim("restore", 50), sim("snapterm", 50)],
+     [tbl("table", "TestC11", 1, "TABLE"), sim("lagging", 18), sim("crashpoints", 16), sim("snapcfg", 8), sim("random", 8), sim("snapterm", 6), sim("snaptrunc", 8), sim("monofail", 4)],
+     [tbl("table", "TestC11", 1, "TABLE"), sim("lagging", 170), sim("crashpoints", 170), sim("snapcfg", 70), sim("random", 100), sim("restore", 50), sim("snapterm", 50), sim("snaptrunc", 60), sim("monofail", 40)],
      None, None,
      {"quick": {"op:snap.close": 100, "compaction": 50, "snapshot-fidelity-checked": 100}, "thorough": {"op:snap.close": 750}},
      rule="TABLE: compactLogsWithTrailing for every (first, last, snapshot index, last log index, TrailingLogs) with values 0..8 (exhaustive); "
